@@ -1773,19 +1773,21 @@ class DynDiGraph(nx.DiGraph):
                                 r = set(range(o[0], o[1] + 1))
                                 for i in intc:
                                     r2 = set(range(i[0], i[1] + 1))
-                                    inter = list(r & r2)
-                                    if len(inter) == 1:
-                                        H.add_interaction(u, v, t=inter[0])
-                                    elif len(inter) > 1:
-                                        H.add_interaction(u, v, t=inter[0], e=inter[-1])
+                                    inter = sorted(r & r2)
+                                    if len(inter) > 0:
+                                        H.add_interaction(u, v, t=inter[0], e=inter[-1] + 1)
 
                         except Exception:
                             pass
 
         else:
-            for it in self.interactions_iter():
-                for t in it[2]['t']:
-                    H.add_interaction(it[0], it[1], t=t[0], e=t[1])
+            spans = {}
+            for u, v, d in self.out_interactions_iter():
+                key = (v, u) if (v, u) in spans else (u, v)
+                spans.setdefault(key, []).extend(d['t'])
+            for (u, v), tl in spans.items():
+                for t in sorted(tl):
+                    H.add_interaction(u, v, t=t[0], e=t[1] + 1)
 
         H.graph = deepcopy(self.graph)
         H._node = deepcopy(self._node)
